@@ -3,7 +3,6 @@ package wal
 import (
 	"errors"
 	"fmt"
-	"github.com/thomasjungblut/go-sstables/recordio"
 	"io"
 	"os"
 	"path/filepath"
@@ -36,53 +35,58 @@ func (r *Replayer) Replay(process func(record []byte) error) (err error) {
 	// do not rely on the order of the FS, we do an additional sort to make sure we start reading from 0000 to 9999
 	sort.Strings(walFiles)
 
-	var toClose []recordio.ReaderI
-	defer func() {
-		for _, reader := range toClose {
-			err = errors.Join(err, reader.Close())
-		}
-	}()
-
 	for i, path := range walFiles {
 		// only the file that was being written when the process died can be incomplete
 		lastFile := i == len(walFiles)-1
-
-		reader, err := r.walOptions.readerFactory(path)
+		err = r.replayFile(path, lastFile, process)
 		if err != nil {
-			return fmt.Errorf("error while creating WAL reader under '%s': %w", path, err)
+			return err
 		}
-		toClose = append(toClose, reader)
+	}
 
-		err = reader.Open()
+	return nil
+}
+
+// replayFile replays a single log file and closes it again: a log may consist of more files than the process may
+// keep open at the same time.
+func (r *Replayer) replayFile(path string, lastFile bool, process func(record []byte) error) (err error) {
+	reader, err := r.walOptions.readerFactory(path)
+	if err != nil {
+		return fmt.Errorf("error while creating WAL reader under '%s': %w", path, err)
+	}
+	defer func() {
+		err = errors.Join(err, reader.Close())
+	}()
+
+	err = reader.Open()
+	if err != nil {
+		// the process died after creating the file and before its header was written: nothing was logged into it
+		if lastFile && (errors.Is(err, io.EOF) || errors.Is(err, io.ErrUnexpectedEOF)) {
+			return nil
+		}
+		return fmt.Errorf("error while opening WAL reader under '%s': %w", path, err)
+	}
+
+	for {
+		bytes, err := reader.ReadNext()
+		// io.EOF signals that no records are left to be read
+		if errors.Is(err, io.EOF) {
+			break
+		}
+
+		// the process died while the last record was being written: the torn record was never acknowledged
+		// as durable in full, the log ends before it
+		if lastFile && errors.Is(err, io.ErrUnexpectedEOF) {
+			break
+		}
+
 		if err != nil {
-			// the process died after creating the file and before its header was written: nothing was logged into it
-			if lastFile && (errors.Is(err, io.EOF) || errors.Is(err, io.ErrUnexpectedEOF)) {
-				break
-			}
-			return fmt.Errorf("error while opening WAL reader under '%s': %w", path, err)
+			return fmt.Errorf("error while reading WAL records under '%s': %w", path, err)
 		}
 
-		for {
-			bytes, err := reader.ReadNext()
-			// io.EOF signals that no records are left to be read
-			if errors.Is(err, io.EOF) {
-				break
-			}
-
-			// the process died while the last record was being written: the torn record was never acknowledged
-			// as durable in full, the log ends before it
-			if lastFile && errors.Is(err, io.ErrUnexpectedEOF) {
-				break
-			}
-
-			if err != nil {
-				return fmt.Errorf("error while reading WAL records under '%s': %w", path, err)
-			}
-
-			err = process(bytes)
-			if err != nil {
-				return fmt.Errorf("error while processing WAL record under '%s': %w", path, err)
-			}
+		err = process(bytes)
+		if err != nil {
+			return fmt.Errorf("error while processing WAL record under '%s': %w", path, err)
 		}
 	}
 
